@@ -261,6 +261,60 @@ fn history(seed: u64, st: &mut Stats, max_users: usize) {
     }
 }
 
+/// One master key with 300 users (registry counts crossing 127/128 and 255/256): every relation is
+/// re-checked at the boundary counts, then some keys are refreshed and the master key round-tripped.
+fn many_users(st: &mut Stats, seed: u64) {
+    let cc = Covercrypt::default();
+    let Some((mut msk, _)) = call(|| cc.setup()).ok() else { return };
+    let _ = msk.access_structure.add_anarchy("D".into());
+    let _ = msk.access_structure.add_attribute(QualifiedAttribute::new("D", "A"), hint(false), None);
+    if call(|| cc.update_msk(&mut msk)).ok().is_none() {
+        return;
+    }
+    let ap = AccessPolicy::parse("D::A").unwrap();
+    let mut h = H { cc, msk, usks: vec![], issued: 0 };
+    for n in 1..=300usize {
+        match call(|| h.cc.generate_user_secret_key(&mut h.msk, &ap)) {
+            Out::Ok(u) => {
+                h.usks.push(u);
+                h.issued += 1;
+            }
+            o => {
+                fail(st, "keygen-fails", format!("user {n}: {}", o.describe()), seed);
+                return;
+            }
+        }
+        if [1, 2, 127, 128, 129, 255, 256, 257, 300].contains(&n) {
+            if !check_all(&mut h, st, "keygen", seed) {
+                return;
+            }
+            if let Some(m) = ser(&h.msk).ok().and_then(|b| de::<MasterSecretKey>(&b).ok()) {
+                h.msk = m;
+                if !check_all(&mut h, st, "msk-roundtrip", seed) {
+                    return;
+                }
+            } else {
+                fail(st, "msk-roundtrip-fails", format!("{n} users"), seed);
+                return;
+            }
+        }
+    }
+    for i in [0usize, 126, 127, 128, 254, 255, 256, 299] {
+        let mut u = h.usks[i].clone();
+        match call(|| h.cc.refresh_usk(&mut h.msk, &mut u, i % 2 == 0)) {
+            Out::Ok(()) => h.usks[i] = u,
+            o => {
+                fail(st, "refresh-of-issued-key-fails", format!("user {i} of 300: {}", o.describe()), seed);
+                return;
+            }
+        }
+    }
+    if check_all(&mut h, st, "refresh", seed) {
+        st.shapes.insert(fnv(b"300-users"));
+        st.bump("many_users_scenarios");
+    }
+}
+
 pub fn run(tier: &str, seed: u64, threads: usize) -> Stats {
     let n: u64 = if tier == "thorough" { 4000 } else { 320 };
     let max_users = if tier == "thorough" { 60 } else { 24 };
@@ -285,6 +339,7 @@ pub fn run(tier: &str, seed: u64, threads: usize) -> Stats {
     for h in hs {
         let _ = h.join();
     }
-    let st = std::mem::take(&mut *total.lock().unwrap());
+    let mut st = std::mem::take(&mut *total.lock().unwrap());
+    many_users(&mut st, seed);
     st
 }
